@@ -12,3 +12,5 @@ for p in "$@"; do
   for r in $(echo "$out" | sed -n 's/^VIOLATION .*replay=\([^ ]*\).*/\1/p' | head -8); do jq -r '"   what: " + ((.what // .kind // "?") | tostring | .[0:400])' "$r" 2>/dev/null; done
 done
 git -C /repo worktree remove --force "$w"
+# the checks regenerated lean/Generated from the scratch tree: put the facts of /repo HEAD back
+git -C /verif checkout -q -- lean/Generated
